@@ -679,6 +679,61 @@ pub fn run_enumerated(ctx: &mut Ctx, bases: &[Base], weight: &dyn Fn(FieldKind) 
     }
     ctx.extra.insert("chain_cases".into(), serde_json::json!(idx));
     ctx.extra.insert("chain_length".into(), serde_json::json!(r));
+    // ---- a box with one field off, twice in a row: what an error-tolerant loop does with the first
+    // copy decides where it looks for the second ----
+    ctx.stage("dup-mutated");
+    let mut idx = 0u64;
+    for (bi, b) in bases.iter().enumerate() {
+        if b.canned || b.name.starts_with("gen") {
+            continue;
+        }
+        let mut flat: Vec<(Vec<&PBox>, &PBox)> = Vec::new();
+        fn collect3<'a>(boxes: &'a [PBox], anc: &mut Vec<&'a PBox>, out: &mut Vec<(Vec<&'a PBox>, &'a PBox)>) {
+            for pb in boxes {
+                out.push((anc.clone(), pb));
+                anc.push(pb);
+                collect3(&pb.children, anc, out);
+                anc.pop();
+            }
+        }
+        collect3(&b.boxes, &mut Vec::new(), &mut flat);
+        for (anc, x) in flat.iter() {
+            if x.size > 4096 {
+                continue;
+            }
+            // fields of the box itself (not of its children)
+            let own = b.fields.iter().filter(|f| f.off >= x.start && f.off < x.end() && !x.children.iter().any(|c| f.off >= c.start && f.off < c.end()) && weight(f.kind) != 0);
+            for f in own {
+                let vmax = if f.width >= 8 { u64::MAX } else { (1u64 << (8 * f.width)) - 1 };
+                for v in [vmax, 0u64, vmax >> 1] {
+                    let my = idx;
+                    idx += 1;
+                    if !ctx.enter(my) {
+                        continue;
+                    }
+                    let mut whole = b.bytes.clone();
+                    write_field(&mut whole, f, v);
+                    let unit = whole[x.start..x.end()].to_vec();
+                    let mut out: Vec<u8> = Vec::with_capacity(b.bytes.len() + unit.len());
+                    out.extend_from_slice(&b.bytes[..x.start]);
+                    out.extend_from_slice(&unit);
+                    out.extend_from_slice(&unit);
+                    out.extend_from_slice(&b.bytes[x.end()..]);
+                    for a in anc.iter() {
+                        if a.header >= 16 {
+                            let cur = u64::from_be_bytes(out[a.start + 8..a.start + 16].try_into().unwrap());
+                            out[a.start + 8..a.start + 16].copy_from_slice(&(cur + unit.len() as u64).to_be_bytes());
+                        } else {
+                            let cur = u32::from_be_bytes(out[a.start..a.start + 4].try_into().unwrap()) as u64;
+                            out[a.start..a.start + 4].copy_from_slice(&((cur + unit.len() as u64).min(u32::MAX as u64) as u32).to_be_bytes());
+                        }
+                    }
+                    each(ctx, &AdvCase { bytes: out, desc: format!("{}: {} with {} := {:#x}, twice in a row", b.name, x.name(), fname(f), v), touched: vec![f.kind], base: bi, baseline: None });
+                }
+            }
+        }
+    }
+    ctx.extra.insert("dup_mutated_cases".into(), serde_json::json!(idx));
     // ---- amplification: a trak (or traf) whose count/length field claims more than the box holds
     // is repeated k times in front of a large padding area. A decoder that follows such a field
     // beyond the end of its own box - and only seeks back afterwards - reads the padding once per
